@@ -55,6 +55,13 @@ def skipTObject : P Unit := do
   let bits ← u32
   if bits &&& kIsReferenced ≠ 0 then skip 2 else pure ()
 
+/-- `skip_TObject`, returning the number of bytes it consumed (10, or 12 for a referenced object) -/
+def skipTObjectLen : P Nat := do
+  skip 2
+  skip 4
+  let bits ← u32
+  if bits &&& kIsReferenced ≠ 0 then do skip 2; pure 12 else pure 10
+
 /-- repeat a parser `n` times -/
 def times {α : Type} (p : P α) : Nat → P (List α)
   | 0 => pure []
@@ -124,16 +131,18 @@ structure Cluster where
   stripID : List Nat     -- int[2][2]
   deriving Repr, DecidableEq
 
-/-- one cluster object; `version` 0 = with recPositionY (fNBytes 96), 1 = without (88);
+/-- one cluster object; `version` 0 = with recPositionY (84 member bytes after the TObject base), 1 = without (76);
 `none` = not yet determined (first object decides) -/
 def readCluster (version : Option Nat) : P (Cluster × Nat) := do
   skipObjHeader
   let nb ← readNBytes
   skip 2
+  let tobj ← skipTObjectLen
+  -- the class version is decided by the size of the members that follow the TObject base (`fNBytes - (cursor - obj_start)`):
+  -- 84 bytes with m_recPositionY, 76 without
   let v ← (match version with
     | some v => pure v
-    | none => if nb = 96 then pure 0 else if nb = 88 then pure 1 else fail)
-  skipTObject
+    | none => if nb = 2 + tobj + 84 then pure 0 else if nb = 2 + tobj + 76 then pure 1 else fail)
   let ints ← times u32 5
   let d1 ← times u64 2
   let dy ← (if v = 0 then times u64 1 else pure [])
